@@ -109,6 +109,14 @@ def chain_program_part(ctx):
                 vals = [c_bool(k in obs["values"]) for k in ("a", "d", "b")]
                 real = f"({c_nat(st)}, {c_list(calls)}, {c_list(vals)})"
                 items.append(({"graph": g, "run": rc}, 131, "chain_obs_eqb", f"chain_obs {handler_t} {c_nat(fuel)} {pv_t}", real))
+                # ... and the returned values themselves, names pinned to the model program's (A = 10, B = 11, a = 31, d = 32, b = 33)
+                from harness.common import Names
+                PN = Names()
+                PN.fwd = {"A": 10, "B": 11, "I": 15, "x": 1, "a": 31, "d": 32, "b": 33}
+                PN.bwd = {v: k for k, v in PN.fwd.items()}
+                items.append(({"graph": g, "run": rc}, 133, "dictV_eqb",
+                              f"collect_all chain (match fst (execute (chain_exec {handler_t}) Async {c_nat(fuel)} chain {pv_t}) with "
+                              f"RDone s => s | RFailed _ s => s | RPaused _ s => s end)", pdl.c_dictval(PN, obs["values"])))
     return engine.run_model_programs(ctx, "C14", ["Samples", "GateRun", "InterruptRun", "InterruptRunModel"], items)
 
 
